@@ -4,7 +4,7 @@
 From Coq Require Import Bool NArith List Lia Arith Permutation.
 Import ListNotations.
 From RsddV Require Import Base.Bdd Base.Util Model.SddVtree Model.SddOps Proofs.SddBase.
-From RsddV Require Import Proofs.SddVtree Proofs.SddInv Proofs.SddLoops Proofs.SddNode.
+From RsddV Require Import Proofs.SddCmp Proofs.SddVtree Proofs.SddInv Proofs.SddLoops Proofs.SddNode.
 
 (* complement normalisation of unique_bdd / unique_or: the distinguished child is regular *)
 Definition norm_first (s : sdd) : bool := negb (s_is_neg s || s_is_false s || s_is_neg_var s).
@@ -13,7 +13,9 @@ Definition is_lit (p : sdd) : Prop := exists v b, p = SVar v b.
 (* what is_compressed / is_trimmed are meant to say, for every reachable node:
    - binary node: children differ, the high child is regular, the node is not a literal in disguise;
    - general node: at least two elements, no prime is the false pointer, subs pairwise distinct
-     (compressed), not {(p,T),(q,F)} (trimmed), not two literal primes (those are binary nodes). *)
+     (compressed), not {(p,T),(q,F)} (trimmed), not two literal primes (those are binary nodes);
+     the elements are in the order of sort_by_key(prime) under the derived Ord of SddPtr and the
+     sub of the first element is regular (the complement convention of unique_or). *)
 Fixpoint nf (p : sdd) : Prop :=
   match p with
   | ST | SF | SVar _ _ => True
@@ -22,14 +24,16 @@ Fixpoint nf (p : sdd) : Prop :=
     (fix go (l : list elem) : Prop := match l with [] => True | (p, s) :: r => nf p /\ nf s /\ go r end) els /\
     2 <= length els /\ NoDup (map snd els) /\ Forall (fun e => fst e <> SF) els /\
     ~ (length els = 2 /\ In ST (map snd els) /\ In SF (map snd els)) /\
-    ~ (length els = 2 /\ Forall (fun e => is_lit (fst e)) els)
+    ~ (length els = 2 /\ Forall (fun e => is_lit (fst e)) els) /\
+    sorted_els els /\ norm_first (snd (hd (ST, ST) els)) = true
   end.
 Definition nfl (els : list elem) : Prop := Forall (fun e => nf (fst e) /\ nf (snd e)) els.
 
 Lemma nf_or c i els : nf (SOr c i els) <->
   nfl els /\ 2 <= length els /\ NoDup (map snd els) /\ Forall (fun e => fst e <> SF) els /\
   ~ (length els = 2 /\ In ST (map snd els) /\ In SF (map snd els)) /\
-  ~ (length els = 2 /\ Forall (fun e => is_lit (fst e)) els).
+  ~ (length els = 2 /\ Forall (fun e => is_lit (fst e)) els) /\
+  sorted_els els /\ norm_first (snd (hd (ST, ST) els)) = true.
 Proof.
   cbn [nf].
   assert (E : (fix go (l : list elem) : Prop := match l with [] => True | (p, s) :: r => nf p /\ nf s /\ go r end) els <-> nfl els).
